@@ -482,9 +482,11 @@ func bigRoots(r *evid.Run, pool *wproto.Pool) {
 			cur += l
 		}
 		blocks = append(blocks, cur)
-		for _, procs := range []int{2, 4, 16} {
+		// (the writer sleeps inside every Write of 1 KiB or more - what a buffered writer flushes: sinks that flush outside
+		// their lock overlap for sure; the line-by-line writes of the sinks as they are stay fast)
+		for _, procs := range []int{2, 4, 16, 16, 8} {
 			for _, route := range []string{"text", "dryrun"} {
-				rq := wproto.Req{Op: "output", Doc: doc.String(), Massive: true, Procs: procs, Yield: 1, Delays: int64(rep*10 + procs)}
+				rq := wproto.Req{Op: "output", Doc: doc.String(), Massive: true, Procs: procs, Yield: 1, WBig: 300, Delays: int64(rep*10 + procs)}
 				want := blocks
 				if route == "dryrun" {
 					rq.DryRun = true
